@@ -722,8 +722,13 @@ static void op_delete(struct ctx *c)
     } else k = pick_key(c, false);
     do_delete(c, ui, k);
 }
+/* C01 twin: once an allocation was refused the model may differ from the urefs (the oracles that would notice are off there);
+ * operations whose ARGUMENTS are computed from the model (a pointer into a stored value and its modelled length) are not issued any more */
+static bool g_model_stale;
+
 static void op_alias(struct ctx *c)
 {
+    if (g_model_stale) return;
     c->opname = "alias";
     int ui = pick_live(c); if (ui < 0) return;
     struct muref *m = &c->mu[ui];
@@ -1315,7 +1320,7 @@ static int run(const uint8_t *tp_, size_t len, struct vp_report *rep, unsigned f
     R("C10 uref attributes: pool_depth=%d udict min_size=%d extra_size=%d control_attr_size=%d\n", depth, minsz, extra, ctlsz);
     if (depth) CLS(CL_POOL);
 #ifdef UREFATTR_AS_C01
-    bool faultmode = cfg >= 96; unsigned nfaults = 0;      /* (cfg 72..255 alias other configurations) */
+    bool faultmode = cfg >= 96; unsigned nfaults = 0; g_model_stale = false;      /* (cfg 72..255 alias other configurations) */
     if (faultmode) R("  [allocation faults]\n");
 #endif
     R("  u0 = uref_alloc()\n");
@@ -1355,7 +1360,7 @@ static int run(const uint8_t *tp_, size_t len, struct vp_report *rep, unsigned f
         else op_set(c);
 #ifdef UREFATTR_AS_C01
         vp_fault_disarm();
-        if (nth && vp_fault_refused()) { nfaults++; R("    (allocation %u inside the operation was refused)\n", nth); c->hash = vp_hash_mix(c->hash, 0xfa00 + nth); }
+        if (nth && vp_fault_refused()) { nfaults++; g_model_stale = true; R("    (allocation %u inside the operation was refused)\n", nth); c->hash = vp_hash_mix(c->hash, 0xfa00 + nth); }
         for (int i = 0; i < MAXU; i++) if (c->mu[i].u) c->mu[i].ub = c->mu[i].u->ubuf;       /* the model follows the urefs */
 #endif
         if (!c->ret) check_all(c);
